@@ -50,6 +50,10 @@ type Disagreement struct {
 	Shrunk   []string `json:"shrunk_lines,omitempty"`
 	ShrunkAt int      `json:"shrunk_line_no,omitempty"`
 	Key      string   `json:"key"`
+	// Kind: "failing-input" (the property fails on this input: in-domain functional disagreement,
+	// or the implementation-side monitor fired) or "tie-broken" (model and implementation took
+	// different internal steps; not by itself a violation).
+	Kind string `json:"kind"`
 }
 
 // Result is what a harness binary prints as JSON for ./check.
@@ -66,6 +70,7 @@ type Result struct {
 	Tags               map[string]int    `json:"tags"`
 	Exhaustive         bool              `json:"exhaustive"`
 	Disagreements      []Disagreement    `json:"disagreements"`
+	DisagreementCount  int               `json:"disagreement_count"`
 	DriftOutside       []Disagreement    `json:"drift_outside_domain"`
 	DriftCount         int               `json:"drift_outside_domain_count"`
 	Notes              map[string]string `json:"notes,omitempty"`
@@ -164,6 +169,7 @@ type Runner struct {
 	Res     Result
 	Rng     *rand.Rand
 	seen    map[string]bool
+	tieKept int
 	start   time.Time
 	pending []Case
 	pendOut [][]string
@@ -173,6 +179,11 @@ type Runner struct {
 	MaxSamples int
 	// Compare overrides plain string equality (e.g. answers containing "?" wildcards); optional.
 	Compare func(req, impl, model string) bool
+	// ImplVerdict, if set, inspects an implementation answer and returns a non-empty class when
+	// the implementation-side monitor of the property fired on that line.
+	ImplVerdict func(implLine string) string
+	// TieOnly: a plain model/implementation mismatch is a broken tie, not a failing input.
+	TieOnly bool
 }
 
 func NewRunner(f *Flags, harness string, impl Impl, rule string) *Runner {
@@ -240,6 +251,21 @@ func (r *Runner) Flush() {
 	}
 	k := 0
 	for ci, c := range r.pending {
+		if r.ImplVerdict != nil {
+			hit := false
+			for li := range c.Lines {
+				if v := r.ImplVerdict(r.pendOut[ci][li]); v != "" {
+					d := Disagreement{Case: c, LineNo: li, Request: c.Lines[li], Impl: r.pendOut[ci][li], Model: model[k+li], Kind: "failing-input", Key: r.F.Prop + ":monitor:" + v}
+					r.record(d)
+					hit = true
+					break
+				}
+			}
+			if hit {
+				k += len(c.Lines)
+				continue
+			}
+		}
 		for li := range c.Lines {
 			if !r.eq(c.Lines[li], r.pendOut[ci][li], model[k+li]) {
 				d := Disagreement{Case: c, LineNo: li, Request: c.Lines[li], Impl: r.pendOut[ci][li], Model: model[k+li]}
@@ -253,18 +279,30 @@ func (r *Runner) Flush() {
 }
 
 func (r *Runner) record(d Disagreement) {
-	if d.Case.Domain && len(r.Res.Disagreements) < 40 {
+	if d.Kind == "" {
+		d.Kind = "failing-input"
+		if r.TieOnly {
+			d.Kind = "tie-broken"
+		}
+	}
+	if d.Case.Domain && len(r.Res.Disagreements) < 40 && !(d.Kind == "tie-broken" && r.tieKept >= 3) {
 		r.shrink(&d)
 	}
-	d.Key = d.Case.Key
-	if r.KeyOf != nil {
-		d.Key = r.KeyOf(&d)
+	if d.Key == "" {
+		d.Key = d.Case.Key
+		if r.KeyOf != nil {
+			d.Key = r.KeyOf(&d)
+		}
 	}
 	if d.Key == "" {
 		d.Key = r.F.Prop + ":" + firstWords(d.Request, 2)
 	}
 	if d.Case.Domain {
-		if len(r.Res.Disagreements) < 200 {
+		r.Res.DisagreementCount++
+		if d.Kind == "tie-broken" {
+			r.tieKept++
+		}
+		if (d.Kind == "tie-broken" && r.tieKept <= 20) || (d.Kind != "tie-broken" && len(r.Res.Disagreements) < 200) {
 			r.Res.Disagreements = append(r.Res.Disagreements, d)
 		}
 	} else {
@@ -281,6 +319,17 @@ func firstWords(s string, n int) string {
 		w = w[:n]
 	}
 	return strings.Join(w, ":")
+}
+
+// firstVerdict: index of the first line on which the implementation-side monitor fires, or -1.
+func (r *Runner) firstVerdict(lines []string) int {
+	impl := execCase(r.Impl, lines)
+	for i := range lines {
+		if r.ImplVerdict(impl[i]) != "" {
+			return i
+		}
+	}
+	return -1
 }
 
 // firstDiff runs lines on both sides; returns index of first differing line or -1.
@@ -300,6 +349,13 @@ func (r *Runner) firstDiff(lines []string) (int, string, string) {
 
 // shrink: greedy one-line-at-a-time removal (keeps line 0, the case header), bounded effort.
 func (r *Runner) shrink(d *Disagreement) {
+	bad := func(lines []string) int {
+		if strings.Contains(d.Key, ":monitor:") && r.ImplVerdict != nil {
+			return r.firstVerdict(lines)
+		}
+		k, _, _ := r.firstDiff(lines)
+		return k
+	}
 	lines := append([]string{}, d.Case.Lines[:d.LineNo+1]...)
 	budget := 60
 	lo := 0
@@ -312,13 +368,13 @@ func (r *Runner) shrink(d *Disagreement) {
 		for i := len(lines) - 2; i >= lo && budget > 0; i-- {
 			cand := append(append([]string{}, lines[:i]...), lines[i+1:]...)
 			budget--
-			if k, _, _ := r.firstDiff(cand); k >= 0 {
+			if k := bad(cand); k >= 0 {
 				lines = cand[:k+1]
 				changed = true
 			}
 		}
 	}
-	if k, _, _ := r.firstDiff(lines); k >= 0 {
+	if k := bad(lines); k >= 0 {
 		d.Shrunk = lines
 		d.ShrunkAt = k
 	}
